@@ -4,6 +4,7 @@
 //   drv_c05 freeze-bounds <dir> <seed>  (run ONCE, by hand: streams on the representation boundaries, appended to /verif/corpus_big)
 //   drv_c05 freeze-handles <dir> <seed> <n>  (run ONCE, by hand: Edgebreaker streams with two topology-split events at one symbol, appended to /verif/corpus_big)
 //   drv_c05 freeze-skip <dir>           (run ONCE per corpus directory, by hand: digests of the decodes with the attribute transform skipped)
+//   drv_c05 freeze-wide-charts <dir> <seed>  (run ONCE, by hand: 5-byte varints, textured grids cut into UV charts; appended to /verif/corpus_big)
 //   drv_c05 check  <dir> <testdata>     decode every frozen stream and every testdata/*.drc; one "Frozen" record per stream
 //   drv_c05 versions <dir>              rewrite the header version of a subset of streams to every (major, minor) in 0..3 x 0..5
 #include <dirent.h>
@@ -208,6 +209,69 @@ static int run_freeze_handles(const std::string &dir, uint64_t seed, long want) 
   return 0;
 }
 
+// Streams with 5-byte varints (values from 2^28 up: attribute unique ids, signed kd-tree minima) and textured grids cut into UV charts (seams
+// inside the surface; the tex-coord predictor's fallback paths), both frozen into /verif/corpus_big.
+static int run_freeze_wide_charts(const std::string &dir, uint64_t seed) {
+  vrt::Rng r(seed);
+  std::ofstream idx(dir + "/index.ndjson", std::ios::app);
+  long k = 0;
+  auto emit = [&](const Geom &g, const Opt &o, const std::string &what, const char *prefix) {
+    Encoded e = encode(g, o);
+    if (!e.ok) { fprintf(stderr, "skip %s: %s\n", what.c_str(), e.err.c_str()); return; }
+    Decoded d = decode(e.bytes.data(), e.bytes.size());
+    if (!d.ok) { fprintf(stderr, "skip %s: does not decode (%s)\n", what.c_str(), d.err.c_str()); return; }
+    char name[64]; snprintf(name, sizeof name, "%s%04ld.drc", prefix, k++);
+    std::ofstream f(dir + "/" + name, std::ios::binary); f.write(e.bytes.data(), e.bytes.size());
+    idx << "{\"file\":\"" << name << "\",\"digest\":" << h64(geom_digest(*d.pc, d.is_mesh)) << ",\"np\":" << d.pc->num_points() << ",\"nf\":" << (d.is_mesh ? d.mesh()->num_faces() : 0)
+        << ",\"gt\":\"" << (g.is_mesh ? "mesh" : "pc") << "\",\"method\":" << (int)(unsigned char)e.bytes[8] << ",\"es\":" << o.es << ",\"pred\":" << o.pred << ",\"builtin\":" << (o.builtin ? "true" : "false")
+        << ",\"what\":\"" << what << "\",\"bytes\":" << e.bytes.size() << "}\n";
+  };
+  // (a) wide integers: int32 attributes around +-2^30 through kd-tree and sequential coding; unique ids above 2^28
+  for (int i = 0; i < 16; ++i) {
+    const int np = 40;
+    Geom g; g.is_mesh = false; g.pc.reset(new PointCloud()); g.pc->set_num_points(np);
+    AttDesc d{GeometryAttribute::POSITION, DT_INT32, 3, false, true, np};
+    const int id = add_attribute(g.pc.get(), d, np);
+    const int32_t base = (i % 4 == 0) ? -(1 << 30) : (i % 4 == 1) ? (1 << 30) - 100000 : (i % 4 == 2) ? -(1 << 28) - 77 : (1 << 29);
+    for (int v = 0; v < np; ++v) { int32_t x[3]; for (int c = 0; c < 3; ++c) x[c] = base + (int32_t)r.below(90000); g.pc->attribute(id)->SetAttributeValue(AttributeValueIndex(v), x); }
+    g.pc->attribute(id)->set_unique_id((i % 2) ? (1u << 28) + 5u + (uint32_t)i : (uint32_t)i);
+    Opt o; o.expert = true; o.qbits.assign(1, 0); o.method = (i / 4) % 2; o.es = o.ds = (i * 3) % 11;
+    emit(g, o, "wide int32 cloud base=" + std::to_string(base) + " uid=" + std::to_string(g.pc->attribute(id)->unique_id()), "w");
+  }
+  // (b) textured grids with UV charts
+  k = 0;
+  for (int i = 0; i < 40; ++i) {
+    const int w = r.range(2, 5), h = r.range(2, 5), ncharts = r.range(2, 3);
+    std::vector<int> chart((size_t)w * h);
+    const int style = r.range(0, 2);
+    for (int y = 0; y < h; ++y) for (int x = 0; x < w; ++x) chart[(size_t)y * w + x] = style == 0 ? (x * ncharts / w) : style == 1 ? (y * ncharts / h) : r.range(0, ncharts - 1);
+    Geom g; g.is_mesh = true; g.pc.reset(new Mesh());
+    Mesh *m = g.mesh();
+    const int nf = 2 * w * h, nc = 3 * nf;
+    m->set_num_points(nc);
+    const int nv = (w + 1) * (h + 1);
+    AttDesc dp{GeometryAttribute::POSITION, DT_FLOAT32, 3, false, false, nv};
+    const int ip = add_attribute(m, dp, nc);
+    for (int y = 0; y <= h; ++y) for (int x = 0; x <= w; ++x) { const float p[3] = {(float)x, (float)y, (float)((x * 3 + y * 5) % 4) * 0.3f}; m->attribute(ip)->SetAttributeValue(AttributeValueIndex(y * (w + 1) + x), p); }
+    AttDesc dt{GeometryAttribute::TEX_COORD, DT_FLOAT32, 2, false, false, nv * ncharts};
+    const int it = add_attribute(m, dt, nc);
+    for (int c = 0; c < ncharts; ++c) for (int v = 0; v < nv; ++v) { const float t[2] = {(float)(v % (w + 1)) / (w + 1) * 0.3f + 0.33f * c, (float)(v / (w + 1)) / (h + 1) * (c % 2 ? 0.5f : 0.9f)}; m->attribute(it)->SetAttributeValue(AttributeValueIndex(c * nv + v), t); }
+    int corner = 0;
+    for (int y = 0; y < h; ++y) for (int x = 0; x < w; ++x) {
+      const int a = y * (w + 1) + x, b = a + 1, cc = a + (w + 1), d = cc + 1, ch = chart[(size_t)y * w + x];
+      const int tri[6] = {a, b, cc, b, d, cc};
+      for (int t6 = 0; t6 < 6; ++t6) { m->attribute(ip)->SetPointMapEntry(PointIndex(corner), AttributeValueIndex(tri[t6])); m->attribute(it)->SetPointMapEntry(PointIndex(corner), AttributeValueIndex(ch * nv + tri[t6])); ++corner; }
+    }
+    for (int f = 0; f < nf; ++f) { Mesh::Face fc; for (int q = 0; q < 3; ++q) fc[q] = PointIndex(3 * f + q); m->AddFace(fc); }
+    m->DeduplicatePointIds();
+    Opt o; o.expert = true; o.method = 1; o.es = o.ds = i % 4; o.submethod = (i % 3 == 0) ? 2 : -1;
+    o.qbits = {r.range(9, 14), r.range(8, 12)};
+    emit(g, o, "uv charts " + std::to_string(w) + "x" + std::to_string(h) + " charts=" + std::to_string(ncharts) + " style=" + std::to_string(style), "u");
+  }
+  fprintf(stderr, "froze wide / chart streams\n");
+  return 0;
+}
+
 static void check_one(const std::string &label, const std::vector<char> &bytes, const vrt::J *frozen) {
   Decoded d = decode(bytes.data(), bytes.size());
   const uint64_t h = d.ok ? geom_digest(*d.pc, d.is_mesh) : 0;
@@ -237,11 +301,14 @@ static const std::vector<std::vector<GeometryAttribute::Type>> kSkipSets = {
     {GeometryAttribute::POSITION}, {GeometryAttribute::POSITION, GeometryAttribute::NORMAL, GeometryAttribute::COLOR, GeometryAttribute::TEX_COORD, GeometryAttribute::GENERIC}};
 static int run_freeze_skip(const std::string &dir) {
   std::ifstream idx(dir + "/index.ndjson");
+  std::set<std::string> have;     // append-only: streams that already have their digests are left alone
+  { std::ifstream old(dir + "/index_skip.ndjson"); std::string l; while (std::getline(old, l)) if (!l.empty()) have.insert(vrt::jparse_line(l)["file"].s); }
   std::ofstream os(dir + "/index_skip.ndjson", std::ios::app);
   std::string line; long n = 0;
   while (std::getline(idx, line)) {
     if (line.empty()) continue;
     vrt::J j = vrt::jparse_line(line);
+    if (have.count(j["file"].s)) continue;
     const std::vector<char> b = slurp(dir + "/" + j["file"].s);
     for (size_t k = 0; k < kSkipSets.size(); ++k) {
       Decoded d = decode(b.data(), b.size(), kSkipSets[k]);
@@ -318,6 +385,7 @@ int main(int argc, char **argv) {
   if (argc >= 5 && !strcmp(argv[1], "freeze")) return run_freeze(argv[2], strtoull(argv[3], 0, 10), atol(argv[4]), argc >= 6 ? argv[5] : "g", argc >= 7 ? atoi(argv[6]) : -1);
   if (argc >= 4 && !strcmp(argv[1], "freeze-big")) return run_freeze_big(argv[2], strtoull(argv[3], 0, 10));
   if (argc >= 5 && !strcmp(argv[1], "freeze-handles")) return run_freeze_handles(argv[2], strtoull(argv[3], 0, 10), atol(argv[4]));
+  if (argc >= 4 && !strcmp(argv[1], "freeze-wide-charts")) return run_freeze_wide_charts(argv[2], strtoull(argv[3], 0, 10));
   if (argc >= 4 && !strcmp(argv[1], "freeze-bounds")) return run_freeze_bounds(argv[2], strtoull(argv[3], 0, 10));
   if (argc >= 3 && !strcmp(argv[1], "freeze-skip")) return run_freeze_skip(argv[2]);
   if (argc >= 3 && !strcmp(argv[1], "check")) return run_check(argv[2]);
